@@ -212,8 +212,10 @@ impl Request {
     #[inline]
     pub(crate) fn clear(&mut self) {
         if self.__buf__[0] != 0 {
+            // zero the whole buffer: a payload byte may be 0, so stopping at the first 0
+            // would leave the rest of this request behind for the next one on the connection
             for b in &mut *self.__buf__ {
-                match b {0 => break, _ => *b = 0}
+                *b = 0
             }
             self.path  = Path::uninit();
             self.query = QueryParams::new(b"");
